@@ -471,6 +471,10 @@ func tableWeight(t *document.Table, budget int) int {
 	return w
 }
 
+// colWidths: the width arguments of InsertColumn / AppendColumn in the drawn scripts (indexed by an index code: 0, 1000+k and 2000
+// fall on the first three entries).
+var colWidths = []int{0, 1000, -1, 1, 12240}
+
 var (
 	tfBold = &document.TextFormat{Bold: true, FontSize: 11, FontColor: "FF0000", FontFamily: "Arial"}
 	border = &document.BorderConfig{Style: document.BorderStyleSingle, Width: 4, Color: "000000"}
@@ -505,6 +509,8 @@ func (j *judge) applyTEdit(doc *document.Document, t *document.Table, e TEdit) {
 		}
 		return []string{}
 	}
+	// the width argument of the column calls: "no explicit width" (0), the value the examples use, a negative one, 1, a page width
+	width := func(k int) int { return colWidths[((k%len(colWidths))+len(colWidths))%len(colWidths)] }
 	switch e.Op {
 	case "InsertRow":
 		t.InsertRow(resolve(e.A, rows+1), data(e.B))
@@ -519,9 +525,9 @@ func (j *judge) applyTEdit(doc *document.Document, t *document.Table, e TEdit) {
 		}
 		t.DeleteRows(a, b)
 	case "InsertColumn":
-		t.InsertColumn(resolve(e.A, cols+1), data(e.B), 1000)
+		t.InsertColumn(resolve(e.A, cols+1), data(e.B), width(e.C))
 	case "AppendColumn":
-		t.AppendColumn(data(e.B), 1000)
+		t.AppendColumn(data(e.B), width(e.C))
 	case "DeleteColumn":
 		t.DeleteColumn(resolve(e.A, cols))
 	case "DeleteColumns":
@@ -679,6 +685,12 @@ func sweepList(t *document.Table) []variant {
 		add(fmt.Sprintf("DeleteColumns(%d,%d)", p, ncols-1), func(t *document.Table) { t.DeleteColumns(p, ncols-1) })
 		add(fmt.Sprintf("DeleteColumns(%d,%d)", p, ncols), func(t *document.Table) { t.DeleteColumns(p, ncols) })
 		add(fmt.Sprintf("DeleteColumns(1,%d)", p), func(t *document.Table) { t.DeleteColumns(1, p) })
+	}
+	// the width argument of the column calls: none (0) and a negative one, at the first and the append position
+	for _, w := range []int{0, -1} {
+		w := w
+		add(fmt.Sprintf("InsertColumn(0,nil,%d)", w), func(t *document.Table) { t.InsertColumn(0, nil, w) })
+		add(fmt.Sprintf("AppendColumn([v],%d)", w), func(t *document.Table) { t.AppendColumn([]string{"v"}, w) })
 	}
 	add("ClearTable()", func(t *document.Table) { t.ClearTable() })
 	cell = true
